@@ -205,6 +205,10 @@ def execute(acc, case):
 
 def run_batch(b):
     acc = harness.Acc()
+    if b.get("real"):
+        from bvm import realnet
+        realnet.run_cases(acc, b["real"])
+        return acc
     for case in b["cases"]:
         execute(acc, case)
     return acc
@@ -228,6 +232,14 @@ def main(tier, seed):
     rng.shuffle(cases)
     nb = 16 if q else 64
     batches = [{"cases": cases[i::nb]} for i in range(nb)]
+    # real loopback (bvm/realnet.py): nothing substituted; each cause x role, then a restart of the same object and a clean close
+    real = [{"kind": "lifecycle", "seed": seed * 131 + k, "role": role, "cause": cause}
+            for k in range(1 if q else 6) for cause in ("local-close", "peer-dpr", "peer-disconnect", "peer-reset", "peer-reset-outbound", "refused", "pre-ce-disconnect")
+            for role in ("client", "server") if not (cause == "refused" and role == "server") and not (cause == "pre-ce-disconnect" and role == "client")]
+    nrb = 12 if q else 16
+    for i in range(nrb):
+        if real[i::nrb]:
+            batches.append({"real": real[i::nrb]})
     acc = harness.run_workers("checks.c08_end_of_life", "run_batch", batches, 3400)
     harness.require_vnet_fidelity(acc)
     cells = acc.extra.pop("cells", {})
@@ -235,7 +247,7 @@ def main(tier, seed):
                           ["bounds are on the virtual clock (60 s) and the step counter; a wall-clock watchdog firing is inconclusive",
                            "refused connection follows Linux semantics observed on the real loopback: first send() raises ConnectionRefusedError, later ones BrokenPipeError",
                            "combinations the statement does not reach (close() before Open is a no-op, DPR outside Open) are left to C06's soft cells"],
-                          t0, extra_cov={"cells": cells}, require_counters=("executions", "restarts_ok", "consumer_returned"))
+                          t0, extra_cov={"cells": cells}, require_counters=("executions", "restarts_ok", "consumer_returned", "real_loopback_ok"))
 
 
 def replay(w):
